@@ -90,9 +90,12 @@ fn explore_iff(opts: &Opts) -> Local {
         let (op, dims) = &space[i];
         let n = dims.len();
         l.states += 1;
-        for m in 0u32..(1 << n) {
-            let mask: Vec<bool> = (0..n).map(|k| m & (1 << k) != 0).collect();
-            let case = || format!("iff {} operands={} mask={:?}", op.name(), dims.iter().map(|d| fmt_dims(d)).collect::<Vec<_>>().join(","), mask.iter().map(|b| *b as u8).collect::<Vec<_>>()).replace(' ', "");
+        // per operand: 0 untracked leaf, 1 tracked leaf, 2 untracked intermediate (a result over a tracked
+        // array whose handle was untracked(): it carries a graph but its flag is off)
+        for m in 0u32..(3u32.pow(n as u32)) {
+            let kinds: Vec<u32> = (0..n).map(|k| (m / 3u32.pow(k as u32)) % 3).collect();
+            let mask: Vec<bool> = kinds.iter().map(|k| *k == 1).collect();
+            let case = || format!("iff {} operands={} mask={:?}", op.name(), dims.iter().map(|d| fmt_dims(d)).collect::<Vec<_>>().join(","), kinds).replace(' ', "");
             if !l.want(&case) {
                 continue;
             }
@@ -100,15 +103,24 @@ fn explore_iff(opts: &Opts) -> Local {
             l.validated += 1;
             let r = run_catch(|| {
                 let mut msgs = Vec::new();
+                let mut bases: Vec<Option<Array>> = Vec::new();
                 let leaves: Vec<Array> = dims
                     .iter()
                     .enumerate()
                     .map(|(k, d)| {
                         let a = arr(d, &vals_small(numel(d), k, var));
-                        if mask[k] {
-                            a.tracked()
+                        if kinds[k] == 2 {
+                            let base = a.tracked();
+                            let inter = (&base * 1.0).untracked();
+                            bases.push(Some(base));
+                            inter
                         } else {
-                            a
+                            bases.push(None);
+                            if mask[k] {
+                                a.tracked()
+                            } else {
+                                a
+                            }
                         }
                     })
                     .collect();
@@ -151,6 +163,18 @@ fn explore_iff(opts: &Opts) -> Local {
                 if !result.gradient().is_some() {
                     msgs.push("the array the pass was started on stores no gradient".into());
                 }
+                // nothing flows through an untracked intermediate
+                for (k, b) in bases.iter().enumerate() {
+                    if matches!(op, OpK::Sum(0)) {
+                        break; // the result is the operand itself
+                    }
+                    if let Some(b) = b {
+                        if b.gradient().is_some() {
+                            msgs.push(format!("the tracked array below the untracked intermediate operand {} received a gradient", k));
+                        }
+                    }
+                }
+                drop(bases);
                 // ownership: with no tracked operand the result keeps no reference to its operands
                 if !any && !matches!(op, OpK::Reshape(_) | OpK::Sum(0)) {
                     for (k, a) in leaves.into_iter().enumerate() {
@@ -210,6 +234,13 @@ pub fn machines(opts: &Opts) -> Vec<crate::machine::MCfg> {
             m.bounds = Bounds { builds: 3, flags: 1, passes: 1, depth: 5, ..Bounds::default() };
             m.flag_kinds = vec![1, 2, 3];
             m.touch_leaves = true;
+            m.seeds = vec![0];
+            out.push(m);
+            // user operations (also the one whose derivative uses the operation again): untracked intermediates
+            // as operands, fetched gradients must be plain arrays
+            let mut m = base_cfg("user-ops/N2F1P1G1", same_shape_leaves(var), vec![OpK::UMulN, OpK::UMul], 6);
+            m.bounds = Bounds { builds: 2, flags: 1, passes: 1, fetches: 1, depth: 5, ..Bounds::default() };
+            m.flag_kinds = vec![1];
             m.seeds = vec![0];
             out.push(m);
             // fetched gradients are plain independent arrays: adopt them as leaves of a new graph
